@@ -12,6 +12,8 @@ use std::path::{Path, PathBuf};
 pub enum Tier {
 	Quick,
 	Thorough,
+	/// very small workloads for the interpreter flavour (Miri); never written as evidence tier
+	Tiny,
 }
 
 impl Tier {
@@ -19,11 +21,14 @@ impl Tier {
 		match self {
 			Tier::Quick => "quick",
 			Tier::Thorough => "thorough",
+			Tier::Tiny => "quick",
 		}
 	}
 	pub fn parse(s: &str) -> Tier {
 		if s == "thorough" {
 			Tier::Thorough
+		} else if s == "tiny" {
+			Tier::Tiny
 		} else {
 			Tier::Quick
 		}
@@ -31,9 +36,12 @@ impl Tier {
 	/// pick a budget by tier
 	pub fn pick<T>(&self, quick: T, thorough: T) -> T {
 		match self {
-			Tier::Quick => quick,
+			Tier::Quick | Tier::Tiny => quick,
 			Tier::Thorough => thorough,
 		}
+	}
+	pub fn is_tiny(&self) -> bool {
+		*self == Tier::Tiny
 	}
 }
 
@@ -408,7 +416,7 @@ pub fn conclude(property: &str, tier: Tier, seed: u64, plan: &Plan, rep: &Report
 	});
 	let ev_dir = verif_dir().join("evidence");
 	let _ = std::fs::create_dir_all(&ev_dir);
-	let ev_path = ev_dir.join(format!("{property}.json"));
+	let ev_path = std::env::var("VTV_EVIDENCE_PATH").map(PathBuf::from).unwrap_or_else(|_| ev_dir.join(format!("{property}.json")));
 	write_atomic(&ev_path, &serde_json::to_string_pretty(&evidence).unwrap());
 
 	for l in &lines {
